@@ -3,6 +3,8 @@ package transaction
 import (
 	"bytes"
 	"math/big"
+
+	"github.com/ElrondNetwork/elrond-go/marshal"
 )
 
 // address encoder stub: injective (the real bech32 text form is injective by C48's regrouping half)
@@ -19,7 +21,7 @@ func (m *verifC24Marshalizer) Marshal(obj interface{}) ([]byte, error) {
 	return []byte("captured"), nil
 }
 func (m *verifC24Marshalizer) Unmarshal(obj interface{}, buff []byte) error { return nil }
-func (m *verifC24Marshalizer) IsInterfaceNil() bool                        { return m == nil }
+func (m *verifC24Marshalizer) IsInterfaceNil() bool                         { return m == nil }
 
 func verifC24Tx(tag string) *Transaction {
 	v := verifBig(tag + "value")
@@ -65,5 +67,108 @@ func Verif_C24_signedFields() {
 		verifAssert(!dto, "a difference in any semantic field changes the signed data")
 	}
 	verifAssert(m1.got.Signature == "", "the signature field is empty in the signed data")
+	verifReach("end")
+}
+
+// ---- the serialised bytes themselves (real TxJsonMarshalizer over the engine's model of json.Encoder) ----
+
+// injective ASCII address encoder (two letters per byte), standing in for bech32 (C48)
+type verifC24AsciiEncoder struct{}
+
+func (verifC24AsciiEncoder) Encode(buff []byte) string {
+	out := make([]byte, 0, 2*len(buff))
+	for _, c := range buff {
+		out = append(out, 'a'+c>>4, 'a'+c&15)
+	}
+	return string(out)
+}
+func (verifC24AsciiEncoder) IsInterfaceNil() bool { return false }
+
+func verifDigit(name string) uint64 {
+	v := verifU8(name)
+	verifAssume(v >= 1 && v <= 9)
+	return uint64(v)
+}
+
+// chain id bytes: letters and digits as on the real networks, a character JSON has to escape, and bytes
+// that are not valid UTF-8
+func verifChainByte(name string) byte {
+	c := verifU8(name)
+	verifAssume(c == '1' || c == 'T' || c == '"' || c == 0xfe || c == 0xff)
+	return c
+}
+
+// Signing bytes of two transactions that differ in at most one field (every field in turn, the new value
+// symbolic): the bytes differ exactly when the field value differs, and the bytes obtained for the first
+// transaction are still the same after the second one was serialised.
+func Verif_C24_signingBytes() {
+	verifFmtExact(true)
+	t1 := &Transaction{Nonce: verifDigit("nonce"), Value: big.NewInt(int64(verifDigit("value"))), RcvAddr: verifBytes("rcv", 1), SndAddr: verifBytes("snd", 1),
+		RcvUserName: verifBytes("rcvName", 1), SndUserName: verifBytes("sndName", 1), GasPrice: verifDigit("gasPrice"), GasLimit: verifDigit("gasLimit"),
+		Data: verifBytes("data", 1), ChainID: []byte{verifChainByte("chain")}, Version: uint32(verifDigit("version")), Options: uint32(verifU8("options") & 7), Signature: []byte("sig1")}
+	t2 := *t1
+	t2.Signature = []byte("sig2")
+	small := func(name string) uint64 {
+		v := verifU8(name)
+		verifAssume(v <= 99)
+		return uint64(v)
+	}
+	switch verifChoice("field", 12) {
+	case 0:
+		t2.Nonce = small("nonce2")
+	case 1:
+		t2.Value = big.NewInt(int64(small("value2")))
+	case 2:
+		t2.RcvAddr = verifBytes("rcv2", 1+verifChoice("rcvLen2", 2))
+	case 3:
+		t2.SndAddr = verifBytes("snd2", 1)
+	case 4:
+		t2.RcvUserName = verifBytes("rcvName2", verifChoice("rcvNameLen2", 3))
+	case 5:
+		t2.SndUserName = verifBytes("sndName2", 1)
+	case 6:
+		t2.GasPrice = small("gasPrice2")
+	case 7:
+		t2.GasLimit = small("gasLimit2")
+	case 8:
+		t2.Data = verifBytes("data2", verifChoice("dataLen2", 4))
+	case 9:
+		t2.ChainID = []byte{verifChainByte("chain2")}
+	case 10:
+		t2.Version = uint32(small("version2"))
+	case 11:
+		t2.Options = uint32(small("options2"))
+	}
+	// known finding: a chain id that is not valid UTF-8 is replaced by U+FFFD in the JSON text, so two
+	// different invalid chain ids give the same signing bytes
+	verifKnown("C24-invalid-utf8-chain-id", t1.ChainID[0] >= 0x80 && t2.ChainID[0] >= 0x80 && t1.ChainID[0] != t2.ChainID[0])
+	m := &marshal.TxJsonMarshalizer{}
+	b1, err1 := t1.GetDataForSigning(verifC24AsciiEncoder{}, m)
+	held := append([]byte{}, b1...) // what the signer saw
+	b2, err2 := t2.GetDataForSigning(verifC24AsciiEncoder{}, m)
+	verifAssert(err1 == nil && err2 == nil, "signing bytes produced")
+	verifAssert(bytes.Equal(b1, held), "the bytes handed out for one transaction do not change when another one is serialised")
+	b1again, _ := t1.GetDataForSigning(verifC24AsciiEncoder{}, m)
+	verifAssert(bytes.Equal(b1again, held), "identical field values give identical bytes")
+	if verifSameSemantic(t1, &t2) {
+		verifAssert(bytes.Equal(b1, b2), "the signature field is not part of the signed bytes")
+	} else {
+		verifAssert(!bytes.Equal(held, b2), "a difference in any semantic field changes the signed bytes")
+	}
+	verifReach("end")
+}
+
+// Validation of the json.Encoder model: a concrete transaction with characters that need escaping, invalid
+// UTF-8, a line separator, base64 padding and omitted fields. The expected text was produced by the real
+// encoder; the native replay of this harness checks it against the real encoder again, the engine checks
+// its model against it.
+func Verif_C24_jsonModelMatchesRealEncoder() {
+	tx := &Transaction{Nonce: 1234567890123, Value: big.NewInt(1000000007), RcvAddr: []byte{0x00, 0xff, 0x10}, SndAddr: []byte{0x7f},
+		RcvUserName: []byte("a<b>&\"c\\"), SndUserName: nil, GasPrice: 1000000000, GasLimit: 50000, Data: []byte{0, 1, 2, 250, 251, 252, 253},
+		ChainID: []byte("T\"<\n\x01\xc3\xa9\xfe\xe2\x80\xa8z"), Version: 1, Options: 0, Signature: []byte("s")}
+	b, err := tx.GetDataForSigning(verifC24AsciiEncoder{}, &marshal.TxJsonMarshalizer{})
+	verifAssert(err == nil, "signing bytes produced")
+	verifAssert(string(b) == "{\"nonce\":1234567890123,\"value\":\"1000000007\",\"receiver\":\"aappba\",\"sender\":\"hp\",\"receiverUsername\":\"YTxiPiYiY1w=\",\"gasPrice\":1000000000,\"gasLimit\":50000,\"data\":\"AAEC+vv8/Q==\",\"chainID\":\"T\\\"<\\n\\u0001é\\ufffd\\u2028z\",\"version\":1}",
+		"the serialised text is what the real encoder produces")
 	verifReach("end")
 }
